@@ -32,6 +32,7 @@ type method struct {
 type structInfo struct {
 	lock    string
 	guarded map[string]bool
+	slices  map[string]bool // guarded fields of slice type
 }
 
 var fset = token.NewFileSet()
@@ -307,6 +308,7 @@ func main() {
 	}
 	var methods []*method
 	var structLines []string
+	var storeLines []string
 	for _, f := range files {
 		af, err := parser.ParseFile(fset, filepath.Join(*repo, f.path), nil, 0)
 		if err != nil {
@@ -328,7 +330,7 @@ func main() {
 				if !ok {
 					continue
 				}
-				si := structInfo{guarded: map[string]bool{}}
+				si := structInfo{guarded: map[string]bool{}, slices: map[string]bool{}}
 				for _, fl := range st.Fields.List {
 					isLock := false
 					if se, ok := fl.Type.(*ast.SelectorExpr); ok {
@@ -344,6 +346,9 @@ func main() {
 							si.lock = n.Name
 						} else {
 							si.guarded[n.Name] = true
+							if at, ok := fl.Type.(*ast.ArrayType); ok && at.Len == nil {
+								si.slices[n.Name] = true
+							}
 						}
 					}
 					if len(fl.Names) == 0 {
@@ -384,6 +389,7 @@ func main() {
 			if rv == "" {
 				die(fd.Pos(), "method %s.%s without a receiver name", rt, fd.Name.Name)
 			}
+			storeLines = append(storeLines, fieldStores(fd, rv, rt, si)...)
 			m := &method{recv: rt, name: fd.Name.Name}
 			w := &walker{m: m, recv: rv, si: si}
 			w.stmts(fd.Body.List)
@@ -411,6 +417,7 @@ func main() {
 		b.WriteString("\n")
 	}
 	b.WriteString("]\n\n")
+	b.WriteString("/-- every assignment to a slice-typed guarded field: where the stored slice comes from -/\ndef sliceStores : List FieldStore := [\n" + strings.Join(storeLines, ",\n") + "]\n\n")
 	b.WriteString(bufferedFacts(*repo))
 	b.WriteString("end Kit.Generated.C14\n")
 	if *out == "" {
@@ -421,4 +428,118 @@ func main() {
 		fmt.Fprintln(os.Stderr, "factgen_c14:", err)
 		os.Exit(1)
 	}
+}
+
+// fieldStores classifies every assignment `recv.f = rhs` to a slice-typed guarded field f:
+//
+//	appendOwn  : append(recv.f…, …)          — values are copied into the container's own storage
+//	fresh      : make(…), nil, a literal, append(<literal or nil>, …)
+//	paramAlias : a parameter (or a re-slice of one, or append(param, …)) — the container would share
+//	             the caller's backing array
+//
+// anything else (a local variable, a call) is an unknown shape.
+func fieldStores(fd *ast.FuncDecl, recv, rtype string, si structInfo) []string {
+	if len(si.slices) == 0 {
+		return nil
+	}
+	params := map[string]bool{}
+	if fd.Type.Params != nil {
+		for _, f := range fd.Type.Params.List {
+			for _, n := range f.Names {
+				params[n.Name] = true
+			}
+		}
+	}
+	rootIdent := func(e ast.Expr) string {
+		for {
+			switch x := e.(type) {
+			case *ast.Ident:
+				return x.Name
+			case *ast.SliceExpr:
+				e = x.X
+			case *ast.ParenExpr:
+				e = x.X
+			case *ast.IndexExpr:
+				e = x.X
+			default:
+				return ""
+			}
+		}
+	}
+	var classify func(e ast.Expr, field string) string
+	classify = func(e ast.Expr, field string) string {
+		switch x := e.(type) {
+		case *ast.ParenExpr:
+			return classify(x.X, field)
+		case *ast.Ident:
+			if x.Name == "nil" {
+				return "fresh"
+			}
+			if params[x.Name] {
+				return "paramAlias"
+			}
+			die(e.Pos(), "%s.%s assigned from local variable %s", recv, field, x.Name)
+		case *ast.SliceExpr:
+			if params[rootIdent(x)] {
+				return "paramAlias"
+			}
+			if fieldOf(x.X, recv) == field {
+				return "appendOwn" // re-slice of its own storage
+			}
+			die(e.Pos(), "%s.%s assigned from a slice expression", recv, field)
+		case *ast.CompositeLit:
+			return "fresh"
+		case *ast.CallExpr:
+			if id, ok := x.Fun.(*ast.Ident); ok {
+				switch id.Name {
+				case "make":
+					return "fresh"
+				case "append":
+					if len(x.Args) == 0 {
+						die(e.Pos(), "append without arguments")
+					}
+					a0 := x.Args[0]
+					if fieldOf(a0, recv) == field {
+						return "appendOwn"
+					}
+					if params[rootIdent(a0)] {
+						return "paramAlias"
+					}
+					switch classify(a0, field) {
+					case "fresh":
+						return "fresh"
+					case "paramAlias":
+						return "paramAlias"
+					}
+				}
+			}
+			die(e.Pos(), "%s.%s assigned from a call the translator does not know", recv, field)
+		}
+		die(e.Pos(), "%s.%s assigned from %T", recv, field, e)
+		return ""
+	}
+	var out []string
+	ast.Inspect(fd.Body, func(n ast.Node) bool {
+		as, ok := n.(*ast.AssignStmt)
+		if !ok {
+			return true
+		}
+		for i, l := range as.Lhs {
+			sel, ok := l.(*ast.SelectorExpr)
+			if !ok {
+				continue
+			}
+			id, ok := sel.X.(*ast.Ident)
+			if !ok || id.Name != recv || !si.slices[sel.Sel.Name] {
+				continue
+			}
+			if len(as.Lhs) != len(as.Rhs) || as.Tok != token.ASSIGN {
+				die(as.Pos(), "assignment to %s.%s of an unknown form", recv, sel.Sel.Name)
+			}
+			kind := classify(as.Rhs[i], sel.Sel.Name)
+			out = append(out, fmt.Sprintf("  { recv := %q, method := %q, field := %q, kind := .%s }", rtype, fd.Name.Name, sel.Sel.Name, kind))
+		}
+		return true
+	})
+	return out
 }
